@@ -18,6 +18,9 @@ use std::time::{Duration, Instant};
 pub enum Kind {
     HttpEphemeral,
     Persistent,
+    /// registered persistent, re-registered as ephemeral 1.5 s later, heart-beating from then on (only in batches with
+    /// the TCP probe of persistent instances switched on): once it is ephemeral only the heartbeat clock may judge it
+    FlipToEphemeral,
 }
 
 #[derive(Debug, Clone, Serialize, Deserialize)]
@@ -37,6 +40,11 @@ pub struct Timeline {
 #[derive(Debug, Clone, Serialize, Deserialize)]
 pub struct Batch {
     pub timelines: Vec<Timeline>,
+    /// the server probes persistent instances every 5 s (the generated addresses refuse connections); such a batch holds
+    /// heart-beating ephemeral instances and instances that change kind, and only the "never while heart-beating" clause
+    /// is judged (with the probe running, expiry was observed a few hundred ms late on a loaded machine)
+    #[serde(default)]
+    pub probe_on: bool,
 }
 
 const WINDOW_MS: u64 = 16_000;
@@ -65,7 +73,20 @@ fn timeline_strategy() -> impl Strategy<Value = Timeline> {
 }
 
 pub fn batch_strategy(n: usize) -> impl Strategy<Value = Batch> {
-    prop::collection::vec(timeline_strategy(), n..=n).prop_map(|timelines| Batch { timelines })
+    prop::collection::vec(timeline_strategy(), n..=n).prop_map(|timelines| Batch { timelines, probe_on: false })
+}
+
+/// batch for a server with the TCP probe on: kind flips and heart-beating controls
+pub fn flip_batch_strategy(n: usize) -> impl Strategy<Value = Batch> {
+    let tl = (prop::bool::weighted(0.65), 0u8..4, 0u16..4000, prop_oneof![Just(800u16), Just(1000u16), Just(1500u16)], prop_oneof![2 => Just(0xffffu16), 1 => 9000u16..14000]).prop_map(|(flip, service, register_at, period, stop_at)| Timeline {
+        kind: if flip { Kind::FlipToEphemeral } else { Kind::HttpEphemeral },
+        service,
+        register_at,
+        period,
+        stop_at,
+        reregister_at: 0,
+    });
+    prop::collection::vec(tl, n..=n).prop_map(|timelines| Batch { timelines, probe_on: true })
 }
 
 #[derive(Debug, Clone, Default)]
@@ -92,9 +113,13 @@ fn ip_port(i: usize) -> (String, u32) {
     (format!("10.13.{}.{}", i / 200, 1 + i % 200), 7000 + (i % 50) as u32)
 }
 
-fn send_register(c: &reqwest::blocking::Client, base: &str, t: &Timeline, i: usize) -> bool {
+fn send_register(c: &reqwest::blocking::Client, base: &str, t: &Timeline, i: usize, force_ephemeral: Option<bool>) -> bool {
     let (ip, port) = ip_port(i);
-    let eph = if t.kind == Kind::Persistent { "false" } else { "true" };
+    let eph = match force_ephemeral {
+        Some(true) => "true",
+        Some(false) => "false",
+        None => if t.kind == Kind::Persistent { "false" } else { "true" },
+    };
     c.post(format!("{}/nacos/v1/ns/instance", base))
         .form(&[("serviceName", svc_name(t.service)), ("ip", ip), ("port", port.to_string()), ("ephemeral", eph.to_string()), ("namespaceId", "".to_string()), ("groupName", "DEFAULT_GROUP".to_string())])
         .send()
@@ -118,7 +143,7 @@ pub fn run_batch(batch: &Batch, work: &Path, tag: &str, stats: &Stats) -> Result
     env.insert("RNACOS_HTTP_WORKERS".to_string(), "8".to_string());
     // persistent instances are health-checked by a TCP probe of their address (not by the heartbeat clock);
     // the generated addresses do not exist, so the probe is switched off
-    env.insert("RNACOS_NAMING_PERPETUAL_INSTANCE_PROBE_INTERVAL_SECOND".to_string(), "0".to_string());
+    env.insert("RNACOS_NAMING_PERPETUAL_INSTANCE_PROBE_INTERVAL_SECOND".to_string(), if batch.probe_on { "5" } else { "0" }.to_string());
     let mut c = Cluster::new(work, tag, 1, 0, env).map_err(|e| format!("DISCARD {}", e))?;
     c.start_node(0).map_err(|e| format!("DISCARD {}", e))?;
     c.wait_http(0, 30).map_err(|e| format!("DISCARD {}", e))?;
@@ -130,17 +155,29 @@ pub fn run_batch(batch: &Batch, work: &Path, tag: &str, stats: &Stats) -> Result
     let t0 = Instant::now();
     let now_ms = move || t0.elapsed().as_millis() as u64;
     // event list per timeline
-    let mut events: Vec<(u64, usize, bool)> = vec![]; // (time, timeline, is_register)
+    // code: 0 = beat, 1 = register (kind of the timeline), 2 = register persistent, 3 = register ephemeral (the flip)
+    let mut events: Vec<(u64, usize, u8)> = vec![];
     for (i, t) in batch.timelines.iter().enumerate() {
-        events.push((t.register_at as u64, i, true));
+        if t.kind == Kind::FlipToEphemeral {
+            events.push((t.register_at as u64, i, 2));
+            events.push((t.register_at as u64 + 1500, i, 3));
+            let mut at = t.register_at as u64 + 1500 + t.period.max(500) as u64;
+            let stop = if t.stop_at == 0xffff { WINDOW_MS } else { t.stop_at as u64 };
+            while at < stop.min(WINDOW_MS) {
+                events.push((at, i, 0));
+                at += t.period.max(500) as u64;
+            }
+            continue;
+        }
+        events.push((t.register_at as u64, i, 1));
         if t.reregister_at > 0 {
-            events.push((t.reregister_at as u64, i, true));
+            events.push((t.reregister_at as u64, i, 1));
         }
         if t.kind == Kind::HttpEphemeral && t.period > 0 {
             let mut at = t.register_at as u64 + t.period as u64;
             let stop = if t.stop_at == 0xffff { WINDOW_MS } else { t.stop_at as u64 };
             while at < stop.min(WINDOW_MS) {
-                events.push((at, i, false));
+                events.push((at, i, 0));
                 at += t.period as u64;
             }
         }
@@ -164,15 +201,26 @@ pub fn run_batch(batch: &Batch, work: &Path, tag: &str, stats: &Stats) -> Result
                     if k >= events.len() {
                         break;
                     }
-                    let (at, i, is_reg) = events[k];
+                    let (at, i, code) = events[k];
                     let now = now_ms();
                     if at > now {
                         std::thread::sleep(Duration::from_millis(at - now));
                     }
                     let st = now_ms();
-                    let ok = if is_reg { send_register(&client, &base, &tl[i], i) } else { send_beat(&client, &base, &tl[i], i) };
+                    let ok = match code {
+                        0 => send_beat(&client, &base, &tl[i], i),
+                        1 => send_register(&client, &base, &tl[i], i, None),
+                        2 => send_register(&client, &base, &tl[i], i, Some(false)),
+                        _ => send_register(&client, &base, &tl[i], i, Some(true)),
+                    };
                     let en = now_ms();
                     let mut b = beats[i].lock().unwrap();
+                    // for an instance that changes kind only the heartbeats after the change count (the registration that
+                    // changes the kind removes the persistent record through Raft, and the fresh ephemeral one with it,
+                    // until the next heartbeat re-creates it - observed on the unchanged tree, outside C13's statement)
+                    if tl[i].kind == Kind::FlipToEphemeral && code != 0 {
+                        continue;
+                    }
                     if ok {
                         b.sends.push((st, en));
                     } else {
@@ -248,7 +296,7 @@ pub fn run_batch(batch: &Batch, work: &Path, tag: &str, stats: &Stats) -> Result
                         }
                     }
                 }
-                Kind::HttpEphemeral => {
+                Kind::HttpEphemeral | Kind::FlipToEphemeral => {
                     // lower clause: healthy and present while the newest fully completed send is younger than the
                     // health time-out, measured from the START of that send (the server stamps it later than that)
                     let h_start = completed_before.iter().map(|(s0, _)| *s0).max().unwrap_or(0);
@@ -271,7 +319,7 @@ pub fn run_batch(batch: &Batch, work: &Path, tag: &str, stats: &Stats) -> Result
                     // before the sample end
                     let h_end = b.sends.iter().chain(b.failed.iter()).filter(|(s0, _)| *s0 <= smp.end).map(|(_, e0)| *e0).max().unwrap_or(0);
                     let in_flight = b.sends.iter().chain(b.failed.iter()).any(|(s0, e0)| *s0 <= smp.end && *e0 > smp.start);
-                    if !in_flight {
+                    if !in_flight && !batch.probe_on {
                         if smp.start > h_end + HEALTH_MS + TICK_MS + SLACK_MS {
                             judged += 1;
                             if present == Some(true) {
@@ -305,7 +353,7 @@ pub fn run_batch(batch: &Batch, work: &Path, tag: &str, stats: &Stats) -> Result
             p if p <= 4000 => "3to4s_just_in_time".into(),
             _ => "gt4s_too_slow".into(),
         }));
-        if judged > 0 && (straddles || t.reregister_at > 0 || t.kind == Kind::Persistent || t.stop_at != 0xffff) {
+        if judged > 0 && (straddles || t.reregister_at > 0 || t.kind != Kind::HttpEphemeral || t.stop_at != 0xffff) {
             stats.note_distinct(hash_json(&(tag, i, t)));
         }
         if !b.failed.is_empty() {
@@ -366,7 +414,20 @@ pub fn main(ctx: &Ctx) -> i32 {
     }
     let n_batches = ctx.tier.pick(4usize, 16usize);
     let mut failure: Option<Failure<Batch>> = None;
-    let batches: Vec<Batch> = (0..n_batches).map(|i| generate_one(&batch_strategy(120), ctx.seed.wrapping_mul(104729).wrapping_add(i as u64))).collect();
+    let mut batches: Vec<Batch> = (0..n_batches).map(|i| generate_one(&batch_strategy(120), ctx.seed.wrapping_mul(104729).wrapping_add(i as u64))).collect();
+    // batches on servers with the TCP probe of persistent instances on: instances that change kind (8.9)
+    let n_flip = ctx.tier.pick(1usize, 4usize);
+    for i in 0..n_flip {
+        batches.push(generate_one(&flip_batch_strategy(40), ctx.seed.wrapping_mul(7919).wrapping_add(1000 + i as u64)));
+    }
+    // regression tier: saved batches run next to the generated ones
+    for p in saved_replays(&ctx.id) {
+        if let Ok(b) = read_replay::<Batch>(&p) {
+            batches.push(b);
+            stats.label("saved_replay_rerun");
+        }
+    }
+    let n_batches = batches.len();
     let results: Vec<(usize, Result<Vec<String>, String>)> = std::thread::scope(|s| {
         let hs: Vec<_> = batches
             .iter()
